@@ -25,13 +25,12 @@ BASE_OPTION = {
 BASELINE = {"grasses": "baseline", "crop_disruption": "zero", "fish": "baseline", "nutrition": "baseline",
             "ratio_stocks_untouched": "baseline", "shutoff": "continued", "meat_strategy": "baseline_breeding"}
 
-COUNTRIES = ("AFG ALB DZA AGO ARG ARM AUS AUT AZE BHR BGD BRB BLR BEL BLZ BEN BTN BOL BIH BWA BRA BRN BGR BFA BDI CPV KHM CMR "
-             "CAN CAF TCD CHL CHN COL COM COG CRI CIV HRV CUB CYP CZE PRK COD DNK DJI DOM ECU EGY SLV ERI EST SWT ETH FJI "
-             "FIN FRA GAB GMB GEO DEU GHA GRC GTM GIN GNB GUY HTI HND HUN IND IDN IRN IRQ IRL ISR ITA JAM JPN JOR KAZ KEN "
-             "KOR KWT KGZ LAO LVA LBN LSO LBR LBY LTU LUX MDG MWI MYS MLI MLT MRT MUS MEX MNG MNE MAR MOZ MMR NAM NPL NLD "
-             "NZL NIC NER NGA MKD NOR OMN PAK PAN PNG PRY PER PHL POL PRT QAT MDA ROU RUS RWA SAU SEN SRB SLE SGP SVK SVN "
-             "SOM ZAF SSD ESP LKA SDN SUR SWE CHE SYR TWN TJK TZA THA TGO TTO TUN TUR TKM UGA UKR ARE GBR USA URY UZB VEN "
-             "VNM YEM ZMB ZWE").split()
+def all_countries():
+    """iso3 codes of the shipped country table (164 rows)"""
+    import csv, os, lib
+    with open(os.path.join(lib.REPO, "data", "no_food_trade", "computer_readable_combined.csv")) as f:
+        return [row["iso3"] for row in csv.DictReader(f)]
+
 
 MEAT_NAMES = {1: "per-head yields differ", 2: "monthly meat differs", 3: "running total differs",
               4: "meat_summed_consumption differs", 5: "accept/reject mismatch", 6: "milk_kcals differs",
@@ -192,8 +191,8 @@ def gen_runs(ctx):
                     kg_meat_per_large_animal=320.5, shutoff="short_delayed_shutoff")),
     ]
     jobs = [{"iso3": c, "option": o} for c, o in anchors]
-    extra = 2 if ctx.quick else len(COUNTRIES)
-    pool = list(COUNTRIES)
+    pool = all_countries()
+    extra = 2 if ctx.quick else len(pool)
     rng.shuffle(pool)
     for c in pool[:extra]:
         jobs.append({"iso3": c, "option": random_option(rng)})
@@ -332,7 +331,7 @@ def run(ctx):
 
     # ---- (ii) real runs
     run_stats = {"runs": 0, "crashed": 0, "run_errors": 0, "skip_branch": {}, "bumped_months": 0, "retimed_months": 0,
-                 "fed_months_round3": 0, "zero_charge_rounds": 0, "audit_failures": 0}
+                 "fed_months_round3": 0, "zero_charge_rounds": 0, "audit_failures": 0, "rounds_by_count": {}}
     big_terms, big_meta = [], []
     for job, r in zip(jobs, res["runs"]):
         run_stats["runs"] += 1
@@ -347,6 +346,7 @@ def run(ctx):
         aud = r["audit"]
         st = aud["stats"]
         run_stats["skip_branch"][st.get("skip_branch", "?")] = run_stats["skip_branch"].get(st.get("skip_branch", "?"), 0) + 1
+        run_stats["rounds_by_count"][str(st.get("rounds"))] = run_stats["rounds_by_count"].get(str(st.get("rounds")), 0) + 1
         for k in ("bumped_months", "retimed_months", "fed_months_round3", "zero_charge_rounds"):
             run_stats[k] += st.get(k, 0) or 0
         for f in aud["failures"][:3]:
@@ -418,7 +418,6 @@ def run(ctx):
                     rep.update({"iso3": c["iso3"], "option": c["option"], "where": r})
                 ctx.violation(f"C05:tie:{kind}:{name}", f"model and implementation disagree ({name}) on a {kind} case "
                               + (f"{c['iso3']} {r}" if kind == "run" else ""), rep)
-    run_stats["failures_by_kind"] = {}
     ctx.notes["correspondence"] = {"cases": len(terms) + len(big_terms), "disagreements": nbad, "distribution": dist,
                                    "direct_kinds": kinds, "tolerance": "1e-9 (1e-7 for the top-up, which divides by total+1e-9)"}
     ctx.notes["real_runs"] = run_stats
